@@ -22,7 +22,6 @@ import (
 	"github.com/jdillenkofer/pithos/internal/storage/middlewares/delegator"
 	outboxst "github.com/jdillenkofer/pithos/internal/storage/outbox"
 	"github.com/jdillenkofer/pithos/internal/verifx"
-	"github.com/oklog/ulid/v2"
 	"github.com/prometheus/client_golang/prometheus"
 )
 
@@ -77,6 +76,7 @@ type c21Case struct {
 	rng      *verifx.Rng
 	waitMode string // "" = random, "before", "after"
 	pollDebt map[string]int
+	pollSeen map[string]bool
 	curEntry string // worker goroutine only
 }
 
@@ -276,7 +276,7 @@ func (r *c21Repo) observeWait(scope, bucket, key string, e *storageoutboxentry.E
 	mode := cs.waitMode
 	if mode == "" {
 		mode = "before"
-		if cs.rng.Chance(1, 10) {
+		if cs.rng.Chance(1, 2) {
 			mode = "after"
 		}
 	}
@@ -288,11 +288,20 @@ func (r *c21Repo) observeWait(scope, bucket, key string, e *storageoutboxentry.E
 	}
 }
 
+// observePoll is called before a poll for the oldest entry of a scope is delegated. In "after"
+// mode the first poll must still see the entry (nothing has been flushed); only when the caller
+// comes back — i.e. it really slept and polls again — is the worker let through. A wait loop that
+// gives up too early therefore reaches the inner storage with its scope still queued.
 func (r *c21Repo) observePoll(scope, bucket, key string) {
 	cs := r.cs
 	id := scope + "/" + bucket + "/" + key
 	if n, ok := cs.pollDebt[id]; ok {
+		if !cs.pollSeen[id] {
+			cs.pollSeen[id] = true
+			return
+		}
 		delete(cs.pollDebt, id)
+		delete(cs.pollSeen, id)
 		cs.flushThrough(n)
 	}
 }
@@ -307,8 +316,8 @@ func (r *c21Repo) FindLastStorageOutboxEntryForBucket(ctx context.Context, tx *s
 	return e, err
 }
 func (r *c21Repo) FindFirstStorageOutboxEntryForBucket(ctx context.Context, tx *sql.Tx, outboxId string, b storage.BucketName) (*storageoutboxentry.Entity, error) {
-	e, err := r.Repository.FindFirstStorageOutboxEntryForBucket(ctx, tx, outboxId, b)
 	r.observePoll("bucket", c21B(b), "")
+	e, err := r.Repository.FindFirstStorageOutboxEntryForBucket(ctx, tx, outboxId, b)
 	return e, err
 }
 func (r *c21Repo) FindLastStorageOutboxEntryForBucketAndKeyIncludingGlobal(ctx context.Context, tx *sql.Tx, outboxId string, b storage.BucketName, key string) (*storageoutboxentry.Entity, error) {
@@ -319,8 +328,8 @@ func (r *c21Repo) FindLastStorageOutboxEntryForBucketAndKeyIncludingGlobal(ctx c
 	return e, err
 }
 func (r *c21Repo) FindFirstStorageOutboxEntryForBucketAndKeyIncludingGlobal(ctx context.Context, tx *sql.Tx, outboxId string, b storage.BucketName, key string) (*storageoutboxentry.Entity, error) {
-	e, err := r.Repository.FindFirstStorageOutboxEntryForBucketAndKeyIncludingGlobal(ctx, tx, outboxId, b, key)
 	r.observePoll("keyAndGlobal", c21B(b), key)
+	e, err := r.Repository.FindFirstStorageOutboxEntryForBucketAndKeyIncludingGlobal(ctx, tx, outboxId, b, key)
 	return e, err
 }
 func (r *c21Repo) FindLastGlobalStorageOutboxEntry(ctx context.Context, tx *sql.Tx, outboxId string) (*storageoutboxentry.Entity, error) {
@@ -331,8 +340,8 @@ func (r *c21Repo) FindLastGlobalStorageOutboxEntry(ctx context.Context, tx *sql.
 	return e, err
 }
 func (r *c21Repo) FindFirstGlobalStorageOutboxEntry(ctx context.Context, tx *sql.Tx, outboxId string) (*storageoutboxentry.Entity, error) {
-	e, err := r.Repository.FindFirstGlobalStorageOutboxEntry(ctx, tx, outboxId)
 	r.observePoll("global", "~", "")
+	e, err := r.Repository.FindFirstGlobalStorageOutboxEntry(ctx, tx, outboxId)
 	return e, err
 }
 func (r *c21Repo) FindLastGlobalStorageOutboxEntryForBucket(ctx context.Context, tx *sql.Tx, outboxId string, b storage.BucketName) (*storageoutboxentry.Entity, error) {
@@ -343,12 +352,12 @@ func (r *c21Repo) FindLastGlobalStorageOutboxEntryForBucket(ctx context.Context,
 	return e, err
 }
 func (r *c21Repo) FindFirstGlobalStorageOutboxEntryForBucket(ctx context.Context, tx *sql.Tx, outboxId string, b storage.BucketName) (*storageoutboxentry.Entity, error) {
-	e, err := r.Repository.FindFirstGlobalStorageOutboxEntryForBucket(ctx, tx, outboxId, b)
 	r.observePoll("bucketGlobal", c21B(b), "")
+	e, err := r.Repository.FindFirstGlobalStorageOutboxEntryForBucket(ctx, tx, outboxId, b)
 	return e, err
 }
 
-var _ = ulid.ULID{}
+
 
 // ---------------------------------------------------------------- the case
 
@@ -497,12 +506,9 @@ func (cs *c21Case) run(line string) {
 			cs.waitMode = ""
 		}
 	case "op":
-		t0 := time.Now()
+		cs.pollDebt, cs.pollSeen = map[string]int{}, map[string]bool{}
 		cs.s3.exec(line)
 		cs.checkCount()
-		if os.Getenv("C21_TIMING") != "" {
-			fmt.Fprintf(os.Stderr, "  %v %s\n", time.Since(t0), line[:min(len(line), 40)])
-		}
 	}
 }
 
@@ -621,20 +627,13 @@ func c21NewOut(path string) (*verifx.Out, *os.File) {
 }
 
 func (l *c21Lane) runCase(k int, seed uint64, script []string, genOps int) []byte {
-	t0 := time.Now()
-	tm := func(what string) {
-		if os.Getenv("C21_TIMING") != "" {
-			fmt.Fprintf(os.Stderr, "case %d %s %v\n", k, what, time.Since(t0))
-		}
-	}
 	l.ensure()
-	tm("ensure")
 	path := filepath.Join(l.dir, fmt.Sprintf("case-%d.txt", k))
 	out, file := c21NewOut(path)
 	base, cancel := context.WithCancel(context.Background())
 	cs := &c21Case{ctx: context.WithValue(base, c21ClientKey{}, true), cancel: cancel, out: out, raw: l.stack.Storage,
 		outboxID: fmt.Sprintf("c21-%d", k), obDB: l.obDB, ev: make(chan c21Event, 256), resume: make(chan struct{}),
-		quit: make(chan struct{}), entries: map[string]int{}, rng: verifx.NewRng(seed), pollDebt: map[string]int{}}
+		quit: make(chan struct{}), entries: map[string]int{}, rng: verifx.NewRng(seed), pollDebt: map[string]int{}, pollSeen: map[string]bool{}}
 	cs.rawRepo = verifx.Must(repositoryfactory.NewStorageOutboxEntryRepository(l.obDB))
 	gate := &c21Gate{DelegatingStorage: delegator.Wrap(l.stack.Storage), cs: cs}
 	repo := &c21Repo{Repository: cs.rawRepo, cs: cs}
@@ -647,7 +646,6 @@ func (l *c21Lane) runCase(k int, seed uint64, script []string, genOps int) []byt
 	cs.s3 = mk(cs.outbox, cs.ctx)
 	cs.rawS3 = mk(l.stack.Storage, context.Background())
 	verifx.Check(cs.outbox.Start(context.Background()))
-	tm("start")
 	func() {
 		defer func() {
 			if r := recover(); r != nil {
@@ -667,7 +665,6 @@ func (l *c21Lane) runCase(k int, seed uint64, script []string, genOps int) []byt
 		}
 		cs.dump()
 	}()
-	tm("script")
 	close(cs.quit)
 	cancel()
 	sctx, scancel := context.WithTimeout(context.Background(), 10*time.Second)
@@ -677,9 +674,7 @@ func (l *c21Lane) runCase(k int, seed uint64, script []string, genOps int) []byt
 	_ = file.Close()
 	data, _ := os.ReadFile(path)
 	_ = os.Remove(path)
-	tm("stop")
 	l.wipe()
-	tm("wipe")
 	return data
 }
 
